@@ -518,6 +518,7 @@ func (e *Engine) VirtualizationUpdateResource(ctx context.Context, ID string, en
 	quota := resourceOpts.Quota
 	cpuMap := resourceOpts.CPU
 	numaNode := resourceOpts.NUMANode
+	remap := resourceOpts.Remap
 	// unlimited cpu
 	if quota == 0 {
 		quota = -1
@@ -533,9 +534,11 @@ func (e *Engine) VirtualizationUpdateResource(ctx context.Context, ID string, en
 			cpuMap[strconv.Itoa(i)] = int64(e.config.Scheduler.ShareBase)
 		}
 		numaNode = ""
+		// these cores are shared, not bound: keep the cpu quota, as for a remap
+		remap = true
 	}
 
-	newResource := makeResourceSetting(quota, memory, cpuMap, numaNode, resourceOpts.IOPSOptions, resourceOpts.Remap)
+	newResource := makeResourceSetting(quota, memory, cpuMap, numaNode, resourceOpts.IOPSOptions, remap)
 	updateConfig := dockercontainer.UpdateConfig{Resources: newResource}
 	_, err := e.client.ContainerUpdate(ctx, ID, updateConfig)
 	return err
